@@ -38,6 +38,11 @@ inputs:
     extractions:
       - type: delFields
         keys: [facility, pid]
+      - type: drop
+        match:
+          source: xsrc
+        percentage: 100
+        metricLabel: lx
 orchestration:
   type: byKeySet
   keys: [app]
@@ -128,23 +133,30 @@ outputBufferPairs:
 				}
 				o.Emit(map[string]any{"ev": "Program", "steps": steps})
 				chunks := make([][]base.LogChunk, len(p.serializers))
+				nrec := 0
 				for _, host := range []string{"h1", "h2"} {
-					for _, lv := range []struct {
-						pri  int
-						name string
-					}{{15, "debug"}, {14, "info"}, {13, "notice"}} {
-						for _, email := range []bool{false, true} {
-							for _, badtime := range []bool{false, true} {
-								ts, msg := "2020-07-20T03:48:20Z", "plain text only"
-								if badtime {
-									ts = "yesterday"
+					for _, source := range []string{"src", "xsrc"} {
+						for _, lv := range []struct {
+							pri  int
+							name string
+						}{{15, "debug"}, {14, "info"}, {13, "notice"}} {
+							for _, email := range []bool{false, true} {
+								for _, badtime := range []bool{false, true} {
+									ts, msg := "2020-07-20T03:48:20Z", "plain text only"
+									if badtime {
+										ts = "yesterday"
+									}
+									if email {
+										msg = "write to bob@example.com today"
+									}
+									if source == "xsrc" && (email || badtime) {
+										continue
+									}
+									line := fmt.Sprintf("<%d>1 %s %s app 1 %s - %s", lv.pri, ts, host, source, msg)
+									res := p.feed([]byte(line), chunks)
+									nrec++
+									o.Emit(map[string]any{"ev": "LRec", "host": host, "level": lv.name, "email": email, "badtime": badtime, "len": len(line), "res": res, "xdrop": source == "xsrc"})
 								}
-								if email {
-									msg = "write to bob@example.com today"
-								}
-								line := fmt.Sprintf("<%d>1 %s %s app 1 src - %s", lv.pri, ts, host, msg)
-								res := p.feed([]byte(line), chunks)
-								o.Emit(map[string]any{"ev": "LRec", "host": host, "level": lv.name, "email": email, "badtime": badtime, "len": len(line), "res": res})
 							}
 						}
 					}
@@ -169,6 +181,19 @@ outputBufferPairs:
 				}
 				sort.Slice(obs, func(i, j int) bool { return fmt.Sprint(obs[i]) < fmt.Sprint(obs[j]) })
 				o.Emit(map[string]any{"ev": "Labels", "observed": obs})
+				p.inCounter.UpdateMetrics()
+				m = vmetrics.Gather(p.mf)
+				sum := func(name string) int {
+					t := 0.0
+					for k, v := range m {
+						if strings.HasPrefix(k, p.prefix+name) {
+							t += v
+						}
+					}
+					return int(t)
+				}
+				o.Emit(map[string]any{"ev": "Balance", "lines": nrec, "inPassed": sum("input_passed_records_total"), "inDropped": sum("input_dropped_records_total"),
+					"procPassed": sum("process_passed_records_total"), "procDropped": sum("process_dropped_records_total")})
 			}
 		})
 	}
